@@ -45,4 +45,19 @@ theorem maxL_perm {l l' : List Int} (h : l.Perm l') : maxL l = maxL l' := by
   have h2 : maxL l' ≤ maxL l := maxL_le_of_subset (fun a ha => h.symm.subset ha)
   omega
 
+/-- the two ways `lock_amount` succeeds -/
+theorem lock_cases (c c' : FCont) (a : Int) (w : Who) (h : c.lock a w = .ok c') :
+    (a > maxL c.locked ∧ ¬ c.liquid < a - maxL c.locked ∧ c' = ⟨c.liquid - (a - maxL c.locked), a :: c.locked⟩) ∨
+    (¬ a > maxL c.locked ∧ c' = ⟨c.liquid, a :: c.locked⟩) := by
+  unfold FCont.lock FCont.takeRaw at h
+  by_cases hgt : a > maxL c.locked
+  · by_cases hlt : c.liquid < a - maxL c.locked
+    · simp [hgt, hlt] at h
+    · simp [hgt, hlt] at h
+      exact Or.inl ⟨hgt, hlt, h.symm⟩
+  · simp [hgt] at h
+    exact Or.inr ⟨hgt, h.symm⟩
+
+deriving instance DecidableEq for Except
+
 end Radix.Res
